@@ -315,6 +315,81 @@ def check(ctx: Ctx) -> list[RuleResult]:
             r5.fail(f"CODES_SCHEMA:{code}:no-parser", repo.mod(PM).rel, f"code {code} is in CODES_SCHEMA but no parser_{code.lower()} is selected by the registry (falls back to parser_unknown){'; near-miss: ' + str(near) if near else ''}")
     r5.samples = [{"schema_codes": len(schema), "registered_parsers": len(have)}]
     out.append(r5)
+
+    # ---- R6 ---------------------------------------------------------------------------
+    # "an array decodes to exactly the list of what each element decodes to on its own": inside the array walk, the value built for
+    # element i may read the payload only through slices placed relative to i (and the message's invariants: verb, source, length
+    # flags) - a value computed once from an absolute position of the payload (its first byte, its length) and reused for every
+    # element makes an element decode differently depending on its neighbours
+    from .common import facts_at
+    from .common import single_defs as _sd6
+
+    r6 = RuleResult("R6", "array elements decode on their own", "inside the array walk of every array-capable parser, the payload is read only through slices relative to the walk's index", min_instances=8)
+    for code, spec in sorted(arr.items()):
+        pf = repo.funcs.get(f"{PM}.parser_{code.lower()}")
+        if pf is None:
+            continue
+        arr_exprs = sorted({norm(n) for n in own_nodes(pf.node) if isinstance(n, ast.Attribute) and n.attr == "_has_array"})
+        params = [a.arg for a in pf.node.args.args]
+        pay = params[0] if params else "payload"
+        defs = _sd6(pf.node)
+        walks = []
+        for n in own_nodes(pf.node):
+            if isinstance(n, ast.Call) and norm(n.func) == "range" and len(n.args) == 3:
+                st = n
+                while not isinstance(st, ast.stmt):
+                    st = st.parent  # type: ignore[attr-defined]
+                if any(_known_at(st, ae, pf.node) for ae in arr_exprs):
+                    walks.append(n)
+        for rng in walks:
+            holder = getattr(rng, "parent", None)
+            var = None
+            elems: list[ast.AST] = []
+            if isinstance(holder, ast.comprehension) and isinstance(holder.target, ast.Name):
+                var = holder.target.id
+                comp = getattr(holder, "parent", None)
+                elems = [comp.elt] if hasattr(comp, "elt") else ([comp.key, comp.value] if isinstance(comp, ast.DictComp) else [])
+                elems += list(holder.ifs)
+            elif isinstance(holder, (ast.For, ast.AsyncFor)) and isinstance(holder.target, ast.Name):
+                var = holder.target.id
+                elems = list(holder.body)
+            if var is None or not elems:
+                continue
+            r6.instances += 1
+            r6.nontrivial += 1
+            bad: list[str] = []
+            for el in elems:
+                for x in ast.walk(el):
+                    if isinstance(x, ast.Subscript) and isinstance(x.value, ast.Name) and x.value.id == pay:
+                        if not any(isinstance(y, ast.Name) and y.id == var for y in ast.walk(x.slice)):
+                            bad.append(f"`{norm(x)}` (an absolute position of the payload)")
+                    elif isinstance(x, ast.Name) and isinstance(x.ctx, ast.Load) and x.id in defs and x.id not in (var, pay):
+                        d = defs[x.id]
+                        if any(isinstance(y, ast.Name) and y.id == pay for y in ast.walk(d)) and not any(isinstance(y, ast.Name) and y.id == var for y in ast.walk(d)):
+                            bad.append(f"`{x.id}` (= {norm(d)[:50]}, computed once from the whole payload)")
+                    elif isinstance(x, ast.Call) and isinstance(x.func, ast.Name) and x.func.id == "len" and x.args and isinstance(x.args[0], ast.Name) and x.args[0].id == pay:
+                        bad.append("`len(payload)` (the number of elements)")
+            # names bound by if/else before the walk from an absolute position (not single definitions): found through the
+            # statements that bind them
+            multi: dict[str, list[ast.expr]] = {}
+            for n in own_nodes(pf.node):
+                if isinstance(n, ast.Assign) and len(n.targets) == 1 and isinstance(n.targets[0], ast.Name) and n.targets[0].id not in defs:
+                    multi.setdefault(n.targets[0].id, []).append(n)
+            for el in elems:
+                for x in ast.walk(el):
+                    if isinstance(x, ast.Name) and isinstance(x.ctx, ast.Load) and x.id in multi and x.id not in (var, pay):
+                        for asg in multi[x.id]:
+                            if any(id(asg) == id(y) for e2 in elems for y in ast.walk(e2)):
+                                continue  # bound inside the walk itself
+                            tests = [t for t, _v in facts_at(asg)]
+                            if any(isinstance(y, ast.Name) and y.id == pay for t in tests + [asg.value] for y in ast.walk(t)):
+                                bad.append(f"`{x.id}` (chosen before the walk by a test of the whole payload: {norm(tests[0])[:40] if tests else norm(asg.value)[:40]})")
+            bad = sorted(set(bad))
+            if bad:
+                r6.fail(f"parser_{code.lower()}:element-reads-whole-payload", pf.loc(rng), f"in parser_{code.lower()}'s array walk the value of an element depends on {'; '.join(bad)[:260]}: the same element decodes differently depending on what else is in the array")
+            else:
+                r6.ok({"code": code, "walk": norm(rng), "payload_read_only_relative_to": var})
+    out.append(r6)
     return out
 
 
